@@ -107,6 +107,25 @@ Proof.
     rewrite planet_layout by exact Hn. reflexivity.
 Qed.
 
+(* ---- behaviour samples of the fetch path (translator probe through the exported entry points):
+   the URLs the code really requests and the sequence numbers it really returns are those the
+   model computes.  These obligations hold whether the definitions above were read off the
+   syntax or are the canonical ones (see tie_modes in GenReplication.v). *)
+Definition sample_url_ok (s : Z * Z * Z * string) : bool :=
+  let '(k, w, n, u) := s in
+  let m := if w =? 0 then state_url k "http://B" n
+           else if w =? 1 then data_url k "http://B" n else current_url k "http://B" in
+  match m with Some x => String.eqb x u | None => false end.
+
+Lemma gen_url_samples : (100 <=? Z.of_nat (List.length url_samples)) && forallb sample_url_ok url_samples = true.
+Proof. vm_compute. reflexivity. Qed.
+
+Lemma gen_fix_samples :
+  (6 <=? Z.of_nat (List.length fix_samples)) &&
+  forallb (fun '(n, k, r) => fetched_seq 3 n k =? r) fix_samples &&
+  existsb (fun '(n, k, r) => n =? 0) fix_samples && existsb (fun '(n, k, r) => negb (n =? 0) && negb (k + 1 =? n)) fix_samples = true.
+Proof. vm_compute. reflexivity. Qed.
+
 (* ---- the decoders' data: keys, separators, line numbers, number parsers, time formats ---- *)
 From Verif Require Import C19.Decode C19.DecodeGen C19.ProofsDecode.
 
@@ -129,13 +148,30 @@ Lemma gen_parsers :
   changeset_parsers = ["strconv.ParseUint"]%string.
 Proof. split; reflexivity. Qed.
 
-Lemma gen_time_formats_planet : time_formats = planet_formats.
-Proof. reflexivity. Qed.
+(* timeFormats holds exactly the three planet formats, in any order *)
+Definition subsetb (a b : list string) : bool := forallb (fun x => existsb (String.eqb x) b) a.
+
+Lemma subsetb_In : forall a b, subsetb a b = true -> forall x, In x a -> In x b.
+Proof.
+  intros a b H x Hx. unfold subsetb in H. rewrite forallb_forall in H. specialize (H x Hx).
+  apply existsb_exists in H. destruct H as (y & Hy & E). apply String.eqb_eq in E. subst. exact Hy.
+Qed.
+
+Lemma gen_time_formats_set : subsetb time_formats planet_formats && subsetb planet_formats time_formats = true.
+Proof. vm_compute. reflexivity. Qed.
+
+Lemma gen_reads_planet_times : reads_planet_times time_formats.
+Proof.
+  pose proof gen_time_formats_set as H. apply andb_prop in H. destruct H as [H1 H2].
+  intros k t V Hk. apply decode_time_any; [exact V|exact Hk|exact (subsetb_In _ _ H1)|].
+  apply (subsetb_In _ _ H2). unfold layout_of, planet_formats.
+  destruct Hk as [-> | [-> | [-> _]]]; cbn [Z.eqb Pos.eqb In]; auto.
+Qed.
 
 Lemma decode_interval_gen_eq : forall data,
-  decode_interval_gen data = Some (decode_interval planet_keys planet_formats nlc "="%char data).
+  decode_interval_gen data = Some (decode_interval planet_keys time_formats nlc "="%char data).
 Proof. reflexivity. Qed.
 
 Lemma decode_changeset_gen_eq : forall data,
-  decode_changeset_gen data = Some (decode_changeset planet_formats nlc ":"%char 1 2 data).
+  decode_changeset_gen data = Some (decode_changeset time_formats nlc ":"%char 1 2 data).
 Proof. reflexivity. Qed.
